@@ -261,6 +261,39 @@ def eval_gov(ver):
     return n, bad
 
 
+UNI = f'''<xs:schema {XS}>
+ <xs:simpleType name="IB"><xs:union memberTypes="xs:int xs:boolean"/></xs:simpleType>
+ <xs:simpleType name="IB7"><xs:restriction base="IB"><xs:enumeration value="7"/><xs:enumeration value="true"/></xs:restriction></xs:simpleType>
+ <xs:simpleType name="IB77"><xs:restriction base="IB7"><xs:enumeration value="7"/></xs:restriction></xs:simpleType>
+ <xs:simpleType name="IBp"><xs:restriction base="IB"><xs:pattern value="[0-9t].*"/></xs:restriction></xs:simpleType>
+ <xs:element name="flag" type="IB7"/><xs:element name="plain" type="IB"/><xs:element name="pat" type="IBp"/>
+ <xs:element name="w"><xs:complexType><xs:sequence><xs:any processContents="lax" maxOccurs="unbounded"/></xs:sequence></xs:complexType></xs:element>
+</xs:schema>'''
+UNI_DOCS = [('flag', None, '7', True), ('flag', None, '5', False), ('flag', None, 'true', True), ('flag', 'xs:int', '5', False), ('flag', 'xs:int', '7', False), ('flag', 'xs:boolean', 'true', False),
+            ('flag', 'IB', '7', False), ('flag', 'IB77', '7', True), ('flag', 'IB77', 'true', False), ('flag', 'IB77', '5', False),
+            ('plain', None, '5', True), ('plain', 'xs:int', '5', True), ('plain', 'xs:int', 'true', False), ('plain', 'xs:boolean', 'true', True), ('plain', 'xs:boolean', '5', False), ('plain', 'IB7', '7', True), ('plain', 'IB7', '5', False),
+            ('pat', None, '5', True), ('pat', None, 'false', False), ('pat', 'xs:boolean', 'false', False), ('pat', 'xs:boolean', 'true', False), ('pat', 'xs:int', '5', False)]
+
+
+def eval_union_xsi(ver):
+    """xsi:type naming a member type of a union: admitted only where the declared type IS that union (no facets between the union and the declared type: a restriction of the
+    union by enumeration or pattern is not a supertype of the members), as root and below a lax wildcard; the named type then governs the value"""
+    s = _cls(ver)(UNI); bad = []; n = 0
+    for tag, xt, val, exp in UNI_DOCS:
+        for wrap in (False, True):
+            n += 1
+            d = f'<{tag} {XSI}' + (f' xmlns:xs="http://www.w3.org/2001/XMLSchema" xsi:type="{xt}"' if xt else '') + f'>{val}</{tag}>'
+            dd = f'<w>{d}</w>' if wrap else d
+            try: got = s.is_valid(dd)
+            except Exception as e: got = 'raised ' + type(e).__name__
+            if got is True and exp:
+                v = s.decode(dd); v = v.get(tag) if wrap and isinstance(v, dict) else v; v = v[0] if isinstance(v, list) and len(v) == 1 else v; v = v.get('$') if isinstance(v, dict) else v
+                want = (val == 'true') if val in ('true', 'false') else int(val)
+                if v != want or type(v) is not type(want): bad.append(dict(ver=ver, doc=dd, got=f'decoded {v!r}', exp=repr(want))); continue
+            if got != exp: bad.append(dict(ver=ver, doc=dd, got=got, exp=exp))
+    return n, bad
+
+
 def run(tier, seed, open_findings):
     allc = list(configs())
     sel, exhaustive = part(allc, tier, seed, 6)
@@ -276,6 +309,9 @@ def run(tier, seed, open_findings):
     tl = [eval_typeless(ver) for ver in ('1.0', '1.1')]
     out.append(result('C07.typeless_substitution_members', 'members without a type of a simple-typed and of a complex-typed head (one and two levels), as root and in place of the head x 10 contents x 2 classes', sum(n for n, _ in tl),
                       [dict(case=dict(typeless=True, ver=b['ver'], doc=b['doc']), observed=dict(valid=b['got']), required=dict(valid=b['exp'])) for _, bs in tl for b in bs], exhaustive=True))
+    uv = [eval_union_xsi(ver) for ver in ('1.0', '1.1')]
+    out.append(result('C07.xsi_type_naming_a_union_member', f'{len(UNI_DOCS)} (declared union / restricted union, xsi:type, value) instances, as root and below a lax wildcard, 2 classes', sum(n for n, _ in uv),
+                      [dict(case=dict(union_xsi=True, ver=b['ver'], doc=b['doc']), observed=dict(valid=b['got']), required=dict(valid=b['exp'])) for _, bs in uv for b in bs], exhaustive=True))
     gv = [eval_gov(ver) for ver in ('1.0', '1.1')]
     out.append(result('C07.xsi_type_governs_attributes', '5 declarations (typeless, xs:anyType, complex, xs:int, simple content) x (no xsi:type, 6 named types) x 16 attribute sets x 3 contents, as root and as a child x 2 classes',
                       sum(n for n, _ in gv), [dict(case=dict(gov=True, ver=b['ver'], doc=b['doc'], exp=b['exp']), observed=dict(valid=b['got']), required=dict(valid=b['exp'])) for _, bs in gv for b in bs], exhaustive=True))
@@ -290,6 +326,8 @@ def run(tier, seed, open_findings):
 
 
 def replay(check_name, case):
+    if case.get('union_xsi'):
+        mine = [b for b in eval_union_xsi(case['ver'])[1] if b['doc'] == case['doc']]; return dict(ok=not mine, observed=mine[:1], required='a member type is admitted only for the facet-less union')
     if case.get('typeless'):
         n, bad = eval_typeless(case['ver']); mine = [b for b in bad if b['doc'] == case['doc']]; return dict(ok=not mine, observed=mine[:1], required='validated against the type of the head')
     import xmlschema
